@@ -98,6 +98,17 @@ GHOST_ARG = "Tracked(&mut *w)"
 SERDE_DERIVES = {"Serialize", "Deserialize"}
 
 
+def all_fn_names(sf):
+    """names of all functions (free and methods) defined in a source file"""
+    out = set()
+    for it in sf._all_items():
+        if it.kind == "fn":
+            out.add(it.name)
+        if it.kind in ("impl", "trait"):
+            out |= {c.name for c in it.children if c.kind == "fn"}
+    return out
+
+
 class Piece:
     """One extracted item with its edits, placed in a module of the generated crate."""
 
@@ -124,6 +135,7 @@ class Piece:
         # T-MACRO: expand the repository's own single-arm macro_rules! at their call sites (pre-pass)
         if mode != "stub":
             text = self._expand_macros(text)
+            text = self._inline_new_helpers(text, real, rimpl if (rimpl is not None and ritem is not rimpl) else (ritem if ritem.kind == "impl" else None))
         if mode != "stub":
             text = self._merge_guards(text)
             text = self._desugar_ctrl(text)
@@ -131,6 +143,131 @@ class Piece:
         if len(self.sf.items) != 1:
             raise Undecided(f"{spec}: expected one item after extraction, got {len(self.sf.items)}")
         self.item = self.sf.items[0]
+
+    def _inline_new_helpers(self, text, real, impl_item):
+        """T-INLINE: a call of a function that did not exist when the contracts were written (not in the baseline list
+        of the file's function names) is replaced by that function's own body, parameters bound by `let`, when that is
+        exactly meaning-preserving: no loop, no recursion, no generics, plain identifier parameters, no `return`, and `?`
+        only where the call itself is followed by `?` (same error type).  Anything else is left alone (the unknown
+        function then makes the unit undecided)."""
+        base = self.unit.baseline_fns.get(self.relpath)
+        if base is None:
+            return text
+        cands = {}
+        for it in real._all_items():
+            if it.kind == "fn" and it.name not in base and it.body_open is not None:
+                cands[it.name] = (it, False)
+        for it in real._all_items():
+            if it.kind == "impl":
+                for c in it.children:
+                    if c.kind == "fn" and c.name not in base and c.body_open is not None and impl_item is not None \
+                            and impl_self_type(it.name) == impl_self_type(impl_item.name):
+                        cands[c.name] = (c, True)
+        if not cands:
+            return text
+        for _round in range(20):
+            toks = lex(text)
+            hit = None
+            for k, t in enumerate(toks):
+                if t.kind == "ident" and t.text in cands and k + 1 < len(toks) and toks[k + 1].text == "(" and toks[k - 1].text != "fn":
+                    it, is_method = cands[t.text]
+                    if is_method and not (toks[k - 1].text == "." and toks[k - 2].text == "self" and toks[k - 3].text != "."):
+                        continue
+                    if not is_method and toks[k - 1].text in (".", ":"):
+                        continue
+                    hit = k
+                    break
+            if hit is None:
+                return text
+            k = hit
+            it, is_method = cands[toks[k].text]
+            rt = it.toks
+            body = real.text[rt[it.body_open].end:rt[it.k1].start]
+            btoks = rt[it.body_open + 1:it.k1]
+            names = [x.text for x in btoks]
+            kf = it.k0
+            while rt[kf].text != "fn":
+                kf += 1
+            if rt[kf + 2].text != "(":
+                raise Undecided(f"T-INLINE {it.name}: generic helper")
+            pc = match_close(rt, kf + 2)
+            # parameters: [&[mut] self ,] ident : type , ...
+            params, j = [], kf + 3
+            cur = j
+            parts = []
+            while j <= pc:
+                if j == pc or rt[j].text == ",":
+                    if j > cur:
+                        parts.append((cur, j))
+                    cur = j + 1
+                    j += 1
+                    continue
+                if rt[j].text in OPEN:
+                    j = match_close(rt, j) + 1
+                    continue
+                if rt[j].text == "<":
+                    depth = 0
+                    while True:
+                        if rt[j].text == "<":
+                            depth += 1
+                        elif rt[j].text == ">" and rt[j - 1].text != "-":
+                            depth -= 1
+                            if depth == 0:
+                                break
+                        j += 1
+                j += 1
+            for (a, b) in parts:
+                seg = [x.text for x in rt[a:b]]
+                if "self" in seg and ":" not in seg:
+                    if not is_method:
+                        raise Undecided(f"T-INLINE {it.name}: unexpected self")
+                    continue
+                if rt[a].kind != "ident" or rt[a + 1].text != ":" or rt[a].text == "mut":
+                    raise Undecided(f"T-INLINE {it.name}: parameter is not a plain identifier")
+                params.append((rt[a].text, real.text[rt[a + 2].start:rt[b - 1].end]))
+            if any(x in names for x in ("for", "while", "loop")):
+                raise Undecided(f"T-INLINE {it.name}: new helper with a loop (it needs its own contract and invariant)")
+            if it.name in names:
+                raise Undecided(f"T-INLINE {it.name}: recursive helper")
+            if "return" in names:
+                raise Undecided(f"T-INLINE {it.name}: new helper with `return` (it needs its own contract)")
+            kc = match_close(toks, k + 1)
+            after = kc + 1
+            if toks[after].text == "." and toks[after + 1].text == "await":
+                after += 2
+            if "?" in names and toks[after].text != "?":
+                raise Undecided(f"T-INLINE {it.name}: helper uses `?` but its result is not propagated with `?` at the call")
+            # arguments
+            args, cur, j = [], toks[k + 1].end, k + 2
+            while j < kc:
+                if toks[j].text in OPEN:
+                    j = match_close(toks, j) + 1
+                    continue
+                if toks[j].text == ",":
+                    args.append(text[cur:toks[j].start].strip())
+                    cur = toks[j].end
+                j += 1
+            last = text[cur:toks[kc].start].strip()
+            if last:
+                args.append(last)
+            if len(args) != len(params):
+                raise Undecided(f"T-INLINE {it.name}: {len(args)} arguments for {len(params)} parameters")
+            seen = set()
+            lets = []
+            for (pn, pt), a in zip(params, args):
+                if any(x.kind == "ident" and x.text in seen for x in lex(a)):
+                    raise Undecided(f"T-INLINE {it.name}: argument mentions a name bound by an earlier parameter")
+                lets.append(f"let {pn}: {pt} = {a};")
+                seen.add(pn)
+            start = toks[k].start
+            if is_method:
+                start = toks[k - 2].start
+            exp = "({ " + " ".join(lets) + " " + body + " })"
+            self.rewrites_log.append({"rule": "T-INLINE", "file": self.relpath, "item": self.spec,
+                                      "from": text[start:toks[kc].end], "to": exp,
+                                      "note": f"new helper `{it.name}` (absent from the baseline function list) inlined at its call"})
+            text = text[:start] + exp + text[toks[kc].end:]
+        raise Undecided("T-INLINE did not terminate")
 
     def _expand_macros(self, text):
         for _round in range(200):
@@ -960,6 +1097,10 @@ class Unit:
             self.baseline_shapes = _json.load(open(os.path.join(VERIF, "baseline_shapes.json"))).get(name, {})
         except Exception:
             self.baseline_shapes = {}
+        try:
+            self.baseline_fns = _json.load(open(os.path.join(VERIF, "baseline_shapes.json"))).get("__fns__", {})
+        except Exception:
+            self.baseline_fns = {}
         self.macro_fns = {}  # name -> call template (T-MACRO-FN: the macro body lives in a verified helper fn)
         self.vacuity = False
         self.vacuity_expected = []
